@@ -306,6 +306,7 @@ func init() {
 		c.Group("C06/end-key-infinity", "(shared with C07) an end key is ordered against other keys only where it was tested non-empty: the empty end key means +∞", func() { ruleEndKeyInfinity(c) })
 		c.Group("C06/saved-copy-not-aliased", "(shared with C07) saving a region never writes through the cached region's meta: encryption works on a deep copy", func() { ruleSavedCopyNotAliased(c) })
 		c.Group("C06/keys-immutable", "(shared with C07) the keys of a region meta are assigned only on a meta created in the same function", func() { ruleRegionKeysImmutable(c) })
+		c.Group("C06/encapsulation", "(shared with C07) region trees change only through update/remove, which report every displaced region; nothing inserts into a tree behind their back", func() { ruleTreeAccounting(c) })
 		c.Group("C06/stale-answered", "a stale heartbeat changes nothing and is answered with an error", func() { ruleStaleAnswered(c) })
 	})
 }
